@@ -7,7 +7,7 @@ git -C /repo worktree add -q --detach $WT HEAD || exit 3
 export OMP_NUM_THREADS=1 OPENBLAS_NUM_THREADS=1 MKL_NUM_THREADS=1 PYTHONDONTWRITEBYTECODE=1
 cd $WT
 PYTHONPATH=$WT timeout 600 /venv/bin/python $SRC/demo.py > $WT/.demo0.txt 2>&1; d0=$?
-git apply $SRC/patch.diff; ap=$?
+git apply $SRC/patch.diff 2>/dev/null || git apply --3way $SRC/patch.diff; ap=$?; git diff HEAD > $WT/.rebased.diff
 PYTHONPATH=$WT timeout 600 /venv/bin/python $SRC/demo.py > $WT/.demo1.txt 2>&1; d1=$?
 PYTHONPATH=$WT timeout 1800 /venv/bin/python -m pytest -q -p no:cacheprovider --deselect tensorly/datasets/tests/test_imports.py::test_indian_pines --deselect tensorly/tests/test_backend.py::test_svd_time tensorly > $WT/.tests.txt 2>&1; tr=$?
 tsum=$(tail -1 $WT/.tests.txt)
@@ -20,7 +20,7 @@ done
 echo "$ID apply=$ap demo_unchanged=$d0 demo_changed=$d1 tests_rc=$tr ($tsum) checks:$res"
 if [ $ap -eq 0 ] && [ $d0 -eq 0 ] && [ $d1 -ne 0 ] && [ $tr -eq 0 ]; then
   mkdir -p /verif/seeded/$ID
-  cp $SRC/patch.diff $SRC/demo.py /verif/seeded/$ID/
+  cp $SRC/demo.py /verif/seeded/$ID/; cp $WT/.rebased.diff /verif/seeded/$ID/patch.diff
   /venv/bin/python - "$SRC/meta.json" "/verif/seeded/$ID/meta.json" "$ID" "$d0" "$d1" "$tsum" "$res" "$(git -C /repo rev-parse --short HEAD)" <<'PY'
 import json, sys
 src, dst, sid, d0, d1, tsum, res, head = sys.argv[1:9]
